@@ -1,7 +1,8 @@
 package main
 
-// Family "value" (property C15): every typed accessor of flyt.Result and flyt.SharedStore, ToSlice and
-// the interface comparison, on one Go value given by its code. Every call is made under recover; the
+// Family "value" (property C15): every typed accessor of flyt.Result and flyt.SharedStore, the generic
+// accessors flyt.As[T] / flyt.MustAs[T] for a fixed list of T, ToSlice and the interface comparison, on one
+// Go value given by its code. Every call is made under recover; the
 // whole scenario runs under a watchdog.
 
 import (
@@ -14,8 +15,8 @@ import (
 )
 
 type ValueScenario struct {
-	V   string `json:"v"`   // value code
-	Ds  string `json:"ds"`  // defaults: string, int (decimal), float64 (bits, decimal), bool, []any code, map code
+	V   string `json:"v"`  // value code
+	Ds  string `json:"ds"` // defaults: string, int (decimal), float64 (bits, decimal), bool, []any code, map code
 	Di  string `json:"di"`
 	Df  string `json:"df"`
 	Db  bool   `json:"db"`
@@ -23,6 +24,9 @@ type ValueScenario struct {
 	Dm  string `json:"dm"`
 	Ci  string `json:"ci"` // Go's int(v): decimal | "?" (not defined by the language) | "-" (not numeric)
 	Cf  string `json:"cf"` // bits of Go's float64(v) | "-"
+	// RecvErr (optional; then V is "nil"): the receiver of the Result accessors is flyt.NewErrorResult(this
+	// error value) instead of flyt.NewResult(V). An error Result holds no value, so nothing else changes.
+	RecvErr string `json:"recvErr,omitempty"`
 }
 
 type FamObsJ struct {
@@ -36,16 +40,48 @@ type FamObsJ struct {
 	GetOrMiss string `json:"getOrMiss"`
 }
 
+// GenObsJ: one instantiation of the generic accessors, flyt.As[T] / flyt.MustAs[T]
+type GenObsJ struct {
+	T    string `json:"t"` // type code of T
+	As   string `json:"as"`
+	Ok   string `json:"ok"`
+	Must string `json:"must"`
+}
+
 type ValueObs struct {
-	Str     FamObsJ `json:"str"`
-	Int     FamObsJ `json:"int"`
-	Flt     FamObsJ `json:"flt"`
-	Bool    FamObsJ `json:"bool"`
-	Slice   FamObsJ `json:"slice"`
-	Map     FamObsJ `json:"map"`
-	ToSlice string  `json:"toSlice"`
-	EqSelf  string  `json:"eqSelf"`
-	EqHead  string  `json:"eqHead"`
+	Str     FamObsJ   `json:"str"`
+	Int     FamObsJ   `json:"int"`
+	Flt     FamObsJ   `json:"flt"`
+	Bool    FamObsJ   `json:"bool"`
+	Slice   FamObsJ   `json:"slice"`
+	Map     FamObsJ   `json:"map"`
+	Gen     []GenObsJ `json:"gen"`
+	ToSlice string    `json:"toSlice"`
+	EqSelf  string    `json:"eqSelf"`
+	EqHead  string    `json:"eqHead"`
+}
+
+// genTarget: flyt.As[T] and flyt.MustAs[T] for one T, with the results boxed into an `any`
+type genTarget struct {
+	typ  reflect.Type
+	as   func(flyt.Result) (any, bool)
+	must func(flyt.Result) any
+}
+
+func genT[T any]() genTarget {
+	return genTarget{
+		typ:  reflect.TypeOf((*T)(nil)).Elem(),
+		as:   func(r flyt.Result) (any, bool) { x, ok := flyt.As[T](r); return x, ok },
+		must: func(r flyt.Result) any { return flyt.MustAs[T](r) },
+	}
+}
+
+// the instantiations every scenario observes: the same list, in the same order, as `genTargets` of
+// lean/FlytModel/Model/Value.lean (the driver refuses the line otherwise)
+var genTargets = []genTarget{
+	genT[int](), genT[string](), genT[float64](), genT[bool](), genT[uint8](), genT[[]any](), genT[[]int](), genT[map[string]any](),
+	genT[any](), genT[flyt.Result](), genT[[]flyt.Result](), genT[MyInt](), genT[*int](), genT[func()](), genT[[2]int](), genT[MyRec](),
+	genT[*flyt.Result](),
 }
 
 func (j *jobList) addValue(sc ValueScenario) {
@@ -133,7 +169,7 @@ func execValueScenario(sc *ValueScenario) any {
 		return o
 	case <-time.After(20 * time.Second):
 		t := FamObsJ{"timeout", "-", "timeout", "timeout", "timeout", "timeout", "timeout", "timeout"}
-		return ValueObs{Str: t, Int: t, Flt: t, Bool: t, Slice: t, Map: t, ToSlice: "timeout", EqSelf: "timeout", EqHead: "timeout"}
+		return ValueObs{Str: t, Int: t, Flt: t, Bool: t, Slice: t, Map: t, Gen: []GenObsJ{}, ToSlice: "timeout", EqSelf: "timeout", EqHead: "timeout"}
 	}
 }
 
@@ -161,6 +197,12 @@ func execValue(sc *ValueScenario) ValueObs {
 	const K, MISS = "k", "missing"
 
 	r := flyt.NewResult(v)
+	if sc.RecvErr != "" {
+		if v != nil {
+			panic("recvErr with a value")
+		}
+		r = flyt.NewErrorResult(decodeValue(sc.RecvErr, ctx).(error))
+	}
 	st := flyt.NewSharedStore()
 	st.Set("other", "x")
 	st.Set(K, v)
@@ -230,6 +272,13 @@ func execValue(sc *ValueScenario) ValueObs {
 	o.Map.GetOr = guard(func() string { return encMap(st.GetMapOr(K, dm)) })
 	o.Map.GetMiss = guard(func() string { return encMap(st.GetMap(MISS)) })
 	o.Map.GetOrMiss = guard(func() string { return encMap(st.GetMapOr(MISS, dm)) })
+
+	for _, g := range genTargets {
+		gj := GenObsJ{T: typeCodeOf(g.typ)}
+		gj.As, gj.Ok = guard2(func() (string, string) { x, ok := g.as(r); return encodeValue(x, ctx), tf(ok) })
+		gj.Must = guard(func() string { return encodeValue(g.must(r), ctx) })
+		o.Gen = append(o.Gen, gj)
+	}
 
 	var ts []any
 	tsOK := false
